@@ -91,8 +91,21 @@ def Tab.get (t : Tab σ K) (X : σ) (x : List σ) : K :=
 
 def heads (G : CFG σ K) : List σ := (G.rules.map (·.head)).eraseDups
 
+/-- `Wbody` without enumerating the splits at a terminal (`WbodyFast_eq` in `Proofs/Fast.lean`) -/
+def WbodyFast (V : List σ) (f : σ → List σ → K) : List σ → List σ → K
+  | [], x => if x = [] then 1 else 0
+  | s :: ss, x =>
+    if s ∈ V then
+      match x with
+      | [] => 0
+      | a :: x' => if a = s then WbodyFast V f ss x' else 0
+    else lsum ((splits x).map fun p => f s p.1 * WbodyFast V f ss p.2)
+
 def wnStepAt (G : CFG σ K) (f : σ → List σ → K) (X : σ) (x : List σ) : K :=
   lsum ((G.rules.filter (fun r => r.head = X)).map fun r => r.w * Wbody G.V f r.body x)
+
+def wnStepAtFast (G : CFG σ K) (f : σ → List σ → K) (X : σ) (x : List σ) : K :=
+  lsum ((G.rules.filter (fun r => r.head = X)).map fun r => r.w * WbodyFast G.V f r.body x)
 
 def tabStep (G : CFG σ K) (keys : List (σ × List σ)) (t : Tab σ K) : Tab σ K :=
   keys.map fun k => (k, wnStepAt G t.get k.1 k.2)
@@ -103,6 +116,10 @@ def tabKeys (G : CFG σ K) (xs : List (List σ)) : List (σ × List σ) :=
 def WNtab (G : CFG σ K) (keys : List (σ × List σ)) : Nat → Tab σ K
   | 0 => []
   | n+1 => tabStep G keys (WNtab G keys n)
+
+/-- the step the driver actually runs (equal to `tabStep`: `tabStepFast_eq`) -/
+def tabStepFast (G : CFG σ K) (keys : List (σ × List σ)) (t : Tab σ K) : Tab σ K :=
+  keys.map fun k => (k, wnStepAtFast G t.get k.1 k.2)
 
 /-! ### table evaluation of `ZN` -/
 def zget (z : List (σ × K)) (X : σ) : K :=
